@@ -55,6 +55,8 @@ def main():
         patch = os.path.join(sd, "patch.diff")
     wt = tempfile.mkdtemp(prefix="confirm-", dir="/tmp")
     os.rmdir(wt)
+    # demos in schema/gen/go build into $TMPDIR/test-go-ipld-prime-gengo: keep concurrent runs apart
+    ENV["TMPDIR"] = tempfile.mkdtemp(prefix="confirm-tmp-", dir="/tmp")
     res = {"at_repo_commit": subprocess.check_output(["git", "-C", "/repo", "rev-parse", "--short", "HEAD"], text=True).strip(),
            "patch_used": os.path.basename(patch), "demo_pkg": pkg, "demo_run": runpat}
     ok = False
@@ -91,6 +93,7 @@ def main():
     finally:
         sh(["git", "-C", "/repo", "worktree", "remove", "--force", wt], "/")
         shutil.rmtree(wt, ignore_errors=True)
+        shutil.rmtree(ENV["TMPDIR"], ignore_errors=True)
         sh(["git", "-C", "/repo", "worktree", "prune"], "/")
     mp = os.path.join(sd, "meta.json")
     meta = json.load(open(mp)) if os.path.exists(mp) else {}
